@@ -370,7 +370,7 @@ int main(void) {
        (CPU time consumed), not a hang of the harness. */
     else if (!strcmp(tok[0], "peek") && n == 5) {
       long k = vh_unhex(tok[1], hb, hcap); int en = !strcmp(tok[2], "EAGAIN") ? EAGAIN : !strcmp(tok[2], "EINTR") ? EINTR : 0;
-      static unsigned char later[64]; long k2 = vh_unhex(tok[3], later, sizeof later); int delay = atoi(tok[4]);
+      static unsigned char later[4096]; long k2 = vh_unhex(tok[3], later, sizeof later); int delay = atoi(tok[4]);
       int pfd[2]; pid_t pid; int status = 0, waited = 0; struct rusage ru; char line2[128]; ssize_t got;
       need_screen();
       if (k < 0 || k2 < 0 || pipe(pfd) < 0) { puts("bad-op"); continue; }
